@@ -376,6 +376,8 @@ def judge_batch(part, batch: Path):
     exps = json.load(open(str(batch)[:-4] + ".exp.json"))
     lines = [json.loads(l) for l in open(str(batch) + ".out")]
     reports = {}
+    changed = False      # did the child import other pydra sources than the parent (somebody edited the tree meanwhile)?
+    nviol = len(part.violations)
     flat = [e for g in exps for e in g["exps"]]
     for e, l in zip(flat, lines):
         if "lost" not in l and l.get("id") != e["id"]:
@@ -385,8 +387,7 @@ def judge_batch(part, batch: Path):
         if origin and not origin.startswith(os.environ.get("VT_REPO", "/repo") + "/"):
             raise RuntimeError(f"child imported pydra from {origin}")
         if "tree" in l and l["tree"] != TREE[0]:
-            raise RuntimeError("the pydra source tree changed while the check was running (parent and child interpreters "
-                               "imported different code): re-run")
+            changed = True
     texts = []
     for g in exps:
         for e in g["exps"]:
@@ -396,6 +397,12 @@ def judge_batch(part, batch: Path):
             shutil.rmtree(e["cache_root"], ignore_errors=True)
         part.sample(dict(task=g["exps"][0]["case"]["task"], checksum=g["exps"][0]["checksum"],
                          configs=[e["case"]["config"] for e in g["exps"]]), cap=4)
+    if changed:
+        if len(part.violations) > nviol:
+            del part.violations[nviol:]
+            raise RuntimeError("the pydra source tree changed while the check was running (parent and child interpreters "
+                               "imported different code) and the reports of those children differ: re-run")
+        part.coverage["cases_judged_across_a_source_change"] = part.coverage.get("cases_judged_across_a_source_change", 0) + len(flat)
     return texts
 
 
